@@ -557,4 +557,145 @@ theorem C12_chars_null_key (o : Opts) (cs : List Chunk) (preB postB : List Block
         hfresh hepre hepost hwv hpost (by simpa using hseen2) (by omega) (fun _ => hterm) hF1
   simpa using this
 
+
+/-! ### the block-level classes -/
+
+theorem fuel_doc {o : Opts} {cs : List Chunk} (hok : okC o.dia .end_ [] cs) :
+    2 * (toks cs).length + 10 * heads (toks cs) + 16 ≤ fuelFor (renderChunks cs) := by
+  have := toks_weight o.dia cs .end_ [] hok
+  simp only [fuelFor]; omega
+
+theorem feeds_doc {o : Opts} {cs : List Chunk} (H : TextOk o cs) {c : CU} {rest : Str} (hc : renderChunks cs = c :: rest) :
+    Feeds o { scan := Scan.init (c :: rest), tok := none } (toks cs ++ [(.end_, [])]) := by
+  have := feeds_chunks o cs [] 1 0 .end_ H.ok (by simpa [renderWs] using H.fit)
+  simpa [renderWs, hc, Scan.init] using this
+
+/-- **C12_chars_no_block_header** — elements `e :: es` (items, loops, save frames: any well-formed element list) in front of the
+    first data block header, then any well-formed blocks.  One report, CIF_NO_BLOCK_HEADER; the content is that of the document
+    that has an anonymous block (empty code) with these elements in front. -/
+theorem C12_chars_no_block_header (o : Opts) (cs : List Chunk) (e : Elem) (es : List Elem) (bs : List Block)
+    (H : TextOk o cs) (hmfd : o.maxFrameDepth ≠ 0) (ht : toks cs = elemsToks (e :: es) ++ blocksToks bs)
+    (hwb : wfElems o (e :: es) [] [] = true) (hwbs : wfBlocks o bs [o.norm []] = true) :
+    OneReport o cs CIF_NO_BLOCK_HEADER ({ code := [], body := e :: es } :: bs) := by
+  obtain ⟨c, rest, hc, hfirst, hbom⟩ := H.first
+  have hfu := fuel_doc H.ok
+  have hfe := feeds_doc H hc
+  rw [ht] at hfu hfe
+  rw [hc] at hfu
+  have h1 := Lemmas.WriterChunks.szElems_toks (e :: es)
+  have h2 := Lemmas.WriterChunks.szBlocks_toks bs
+  have h3 := heads_blocks bs
+  simp only [List.length_append, heads_append] at hfu
+  obtain ⟨f, hf⟩ : ∃ f, fuelFor (c :: rest) = f + bs.length + 1 := ⟨fuelFor (c :: rest) - bs.length - 1, by omega⟩
+  obtain ⟨r, h, hr⟩ := C12_no_block_header o e es bs _ f { log := [], cif := [] } H.store hmfd rfl hwb hwbs (by omega) (by omega)
+    (by simpa [List.append_assoc] using hfe)
+  rw [← hf] at h
+  exact ⟨r, by rw [hc, parse_of_parseCif o acceptAll c rest _ H.utf hfirst hbom h]; simp [denote], hr⟩
+
+/-- **C12_chars_invalid_blockcode** — a data block whose code is not a valid block code, any well-formed blocks before and
+    behind.  One report, CIF_INVALID_BLOCKCODE; the content is that of the document as it stands (the code is used anyway). -/
+theorem C12_chars_invalid_blockcode (o : Opts) (cs : List Chunk) (pre post : List Block) (b : Block) (bseen2 : List Str)
+    (H : TextOk o cs) (hmfd : o.maxFrameDepth ≠ 0) (ht : toks cs = blocksToks (pre ++ [b] ++ post))
+    (hpre : wfBlocks o pre [] = true) (hn0 : noNul b.code = true) (hinv : isValidName false b.code = false)
+    (hnew : ∀ x ∈ pre, o.norm x.code ≠ o.norm b.code) (hwb : wfElems o b.body [] [] = true)
+    (hpost : wfBlocks o post bseen2 = true) (hseen2 : ∀ x ∈ pre ++ [b], o.norm x.code ∈ bseen2) :
+    OneReport o cs CIF_INVALID_BLOCKCODE (pre ++ [b] ++ post) := by
+  obtain ⟨c, rest, hc, hfirst, hbom⟩ := H.first
+  have hfu := fuel_doc H.ok
+  have hfe := feeds_doc H hc
+  rw [ht] at hfu hfe
+  rw [hc] at hfu
+  have h2 := Lemmas.WriterChunks.szBlocks_toks (pre ++ [b] ++ post)
+  have h3 := heads_blocks (pre ++ [b] ++ post)
+  have hsz : szBlocks (pre ++ [b] ++ post) = szBlocks pre + szBlock b + szBlocks post := by
+    have hap : ∀ (x y : List Block), szBlocks (x ++ y) = szBlocks x + szBlocks y := by
+      intro x y; induction x with
+      | nil => simp [szBlocks]
+      | cons a r ih => simp only [List.cons_append, szBlocks, ih]; omega
+    rw [hap, hap]; simp [szBlocks]
+  simp only [List.length_append, List.length_cons, List.length_nil] at h2 h3
+  obtain ⟨f, hf⟩ : ∃ f, fuelFor (c :: rest) = f + post.length + 1 + pre.length :=
+    ⟨fuelFor (c :: rest) - post.length - 1 - pre.length, by omega⟩
+  have hbt : ∀ (x y : List Block), blocksToks (x ++ y) = blocksToks x ++ blocksToks y := by
+    intro x y; induction x with
+    | nil => rfl
+    | cons a r ih => simp [blocksToks, ih]
+  obtain ⟨s', r, h, hr⟩ := C12_invalid_blockcode o H.store hmfd pre post b [] bseen2 _ f { log := [], cif := [] } hpre
+    (by intro x hx; cases hx) hn0 hinv
+    (by
+      intro x hx
+      simp only [List.nil_append] at hx
+      obtain ⟨y, hy, hcy⟩ := denote_code hx
+      simp only [codeIs, hcy, beq_eq_false_iff_ne, ne_eq]
+      exact hnew y hy)
+    hwb hpost
+    (by
+      intro x hx
+      simp only [List.nil_append] at hx
+      obtain ⟨y, hy, hcy⟩ := denote_code hx
+      rw [hcy]; exact hseen2 y hy)
+    (by omega)
+    (by simpa [hbt, blocksToks, List.append_assoc] using hfe)
+  rw [← hf] at h
+  exact ⟨r, by rw [hc, parse_of_blocks o acceptAll c rest s' _ H.utf hfirst hbom h]; simp, hr⟩
+
+
+theorem blocksToks_append : ∀ (x y : List Block), blocksToks (x ++ y) = blocksToks x ++ blocksToks y
+  | [], _ => rfl
+  | a :: r, y => by simp [blocksToks, blocksToks_append r y]
+
+theorem szBlocks_append : ∀ (x y : List Block), szBlocks (x ++ y) = szBlocks x + szBlocks y
+  | [], y => by simp [szBlocks]
+  | a :: r, y => by simp only [List.cons_append, szBlocks, szBlocks_append r y]; omega
+
+/-- **C12_chars_dup_blockcode** — a data block header whose normalised code an earlier block `b0` of the document has (any
+    spelling), with items `body`; any blocks before, between and behind.  One report, CIF_DUP_BLOCKCODE; the content is that of the
+    document in which the items stand at the end of `b0`. -/
+theorem C12_chars_dup_blockcode (o : Opts) (cs : List Chunk) (pa pb post : List Block) (b0 : Block) (code : Str) (body : List Item)
+    (bseen2 : List Str) (H : TextOk o cs) (hmfd : o.maxFrameDepth ≠ 0)
+    (ht : toks cs = blocksToks (pa ++ [b0] ++ pb) ++ ((.blockHead, code) :: (itemsToks body ++ blocksToks post)))
+    (hpre : wfBlocks o (pa ++ [b0] ++ pb) [] = true) (hwb0 : wfElems o b0.body [] [] = true)
+    (hcode : wfCode code = true) (hk : o.norm b0.code = o.norm code)
+    (hab : ∀ x ∈ pa ++ pb, o.norm x.code ≠ o.norm code)
+    (hwb : wfItems o body (normNames o (denoteElems o.dia o.normKey b0.body [] []).2) = true)
+    (hpost : wfBlocks o post bseen2 = true) (hseen2 : ∀ x ∈ pa ++ [b0] ++ pb, o.norm x.code ∈ bseen2) :
+    OneReport o cs CIF_DUP_BLOCKCODE (pa ++ [{ code := b0.code, body := b0.body ++ body.map .plain }] ++ pb ++ post) := by
+  obtain ⟨c, rest, hc, hfirst, hbom⟩ := H.first
+  have hfu := fuel_doc H.ok
+  have hfe := feeds_doc H hc
+  rw [ht] at hfu hfe
+  rw [hc] at hfu
+  have h2 := Lemmas.WriterChunks.szBlocks_toks (pa ++ [b0] ++ pb)
+  have h2' := Lemmas.WriterChunks.szBlocks_toks post
+  have h3 := heads_blocks (pa ++ [b0] ++ pb)
+  have h3' := heads_blocks post
+  have h4 := Lemmas.WriterChunks.szItems_toks body
+  simp only [List.length_append, List.length_cons, heads_append, heads, hd, if_true] at hfu
+  obtain ⟨f, hf⟩ : ∃ f, fuelFor (c :: rest) = f + post.length + 1 + (pa ++ [b0] ++ pb).length :=
+    ⟨fuelFor (c :: rest) - post.length - 1 - (pa ++ [b0] ++ pb).length, by omega⟩
+  have hcode' : ∀ x ∈ denote o.dia o.normKey pa ++ denote o.dia o.normKey pb, codeIs o.norm (o.norm code) x = false := by
+    intro x hx
+    have : x ∈ denote o.dia o.normKey (pa ++ pb) := by simpa [denote] using hx
+    obtain ⟨y, hy, hcy⟩ := denote_code this
+    simp only [codeIs, hcy, beq_eq_false_iff_ne, ne_eq]
+    exact hab y hy
+  obtain ⟨s', r, h, hr⟩ := C12_dup_blockcode o H.store hmfd (pa ++ [b0] ++ pb) post code b0.code body [] bseen2
+    (normNames o (denoteElems o.dia o.normKey b0.body [] []).2) _ f { log := [], cif := [] }
+    (denote o.dia o.normKey pa) (denote o.dia o.normKey pb) (denoteElems o.dia o.normKey b0.body [] []).1
+    (denoteElems o.dia o.normKey b0.body [] []).2 hpre (by intro x hx; cases hx) hcode hk
+    (by simp [denote, denoteBlock])
+    (fun x hx => hcode' x (List.mem_append_left _ hx)) (fun x hx => hcode' x (List.mem_append_right _ hx))
+    hwb (fun _ h => h) (allPacked_denoteElems o b0.body [] [] [] [] hwb0 (by intro l hl; cases hl)) hpost
+    (by
+      intro x hx
+      simp only [List.nil_append] at hx
+      obtain ⟨y, hy, hcy⟩ := denote_code hx
+      rw [hcy]; exact hseen2 y hy)
+    (by omega)
+    (by simpa [List.append_assoc] using hfe)
+  rw [← hf] at h
+  refine ⟨r, ?_, hr⟩
+  rw [hc, parse_of_blocks o acceptAll c rest s' _ H.utf hfirst hbom h]
+  simp [denote, denoteBlock, denoteElems_append, denoteElems_plain]
+
 end CifModel.Props
